@@ -304,7 +304,8 @@ def c11_wait_handle(ctx):
     ok = len(ws) == 1 and Tw.operand(ws[0][1]["args"][1]) == ("param", 2, w.local_name(2))
     ctx.ob("R11.6", "wait_handle->WaitForSingleObject(timeout)", ok, w.loc(0), "the timeout reaches WaitForSingleObject unchanged")
     # "still running" is never reported before d has elapsed: the system call takes whole milliseconds, so the conversion must round up
-    cls = [f for p_, f in prog.fns.items() if p_.startswith("win32::WaitForSingleObject::{closure")]
+    # (in win32::WaitForSingleObject itself, or in a closure of it that survives as a function)
+    cls = [f for p_, f in sorted(prog.fns.items()) if p_ == "win32::WaitForSingleObject" or p_.startswith("win32::WaitForSingleObject::{closure")]
     conv = None
     for f in cls:
         calls = [M.callee_str(t["f"]) for _, t in f.calls()]
